@@ -882,3 +882,54 @@ def rule_delete_checks_access_first(ctx):
             ctx.violated("DELACC", key, f.where(line), "the instance is removed from the in-memory table before anything tests the file's write access: on a read-only file the call fails later, with the object already unreachable for the session")
     ctx.floor("DELACC", 2, n, "(routines that remove an instance from a table and delete its descriptors)")
     return n
+
+
+def rule_creator_checks_access(ctx):
+    """CREATEACC (C14): a call that creates a stored object - it allocates a fresh reference (Hnewref / Htagnewref) and
+    registers an id for the new object (HAregister_atom) - tests the file's write permission before it allocates anything:
+    through a read-only handle it must fail, not hand out an id for an object that can never be written (ANcreate used to
+    return a valid id, and ANfileinfo counted the phantom annotation)."""
+    from .codec import ast_walk
+    from .facts import int_name
+    prog = ctx.prog
+    n = 0
+    for f in prog.lib_funcs():
+        ast = f.raw.get("ast")
+        if not ast:
+            continue
+        names = [c[1] for _b, _i, _s, c in f.calls()]
+        if not ({"Hnewref", "Htagnewref"} & set(names)):
+            continue
+        registers = "HAregister_atom" in names
+        if not registers:
+            # one level down: a static helper of the same file that registers the id (ANIcreate -> ANIaddentry)
+            for nm in set(names):
+                g = prog.func(nm) if nm else None
+                if g is not None and g.file == f.file and any(c[1] == "HAregister_atom" for _b, _i, _s, c in g.calls()):
+                    registers = True
+        if not registers:
+            continue
+        n += 1
+        key = "CREATEACC:%s" % f.name
+        order = []
+        ast_walk(ast, lambda nd, st: (order.append(nd) if nd[0] in ("s", "if", "switch") and nd[1] is not None else None, True)[1])
+        checked = False
+        verdict = None
+        line = f.line
+        for nd in order:
+            if nd[0] == "if":
+                for x in walk(nd[1], True):
+                    if x[0] == "bin" and x[1] == "&" and "DFACC_WRITE" in (int_name(x[3]), int_name(x[2])):
+                        checked = True
+                    # the V interface keeps the mode as a character
+                    if x[0] == "bin" and x[1] in ("==", "!=") and kind(strip(x[2])) == "mem" and strip(x[2])[2] == "access":
+                        checked = True
+            if verdict is None and any(c[1] in ("Hnewref", "Htagnewref") for c in calls_in(nd[1], True)):
+                verdict = checked
+                line = nd[-3] if isinstance(nd[-3], int) else f.line
+        if verdict:
+            ctx.holds("CREATEACC", key, f.where(line), "write permission is tested before the new object's reference is allocated", nontrivial=True)
+        else:
+            ctx.violated("CREATEACC", key, f.where(line), "a reference for a new object is allocated and an id registered with no test of the file's write permission before it: on a read-only file the call hands out an id for an object that cannot be stored")
+    ctx.floor("CREATEACC", 3, n, "(routines that allocate a reference and register an id for a new object)")
+    return n
